@@ -12,6 +12,8 @@ def run(ctx):
     files.update(core.vmon_files())
     files.update(core.dir_files('harness/c08', 'zzverif/c08'))
     files.update(core.dir_files('harness/c08/vars', 'zzverif/c08/vars'))
+    # a checked-in copy of the same package under a longer import path: same variable names behind a longer prefix
+    files.update(core.dir_files('harness/c08/vars', 'zzverif/c08/a/github.com/tencent/goom/zzverif/c08/vars'))
     b = ctx.build('c08', core.MODPATH + '/zzverif/c08', files)
     nh, shards = ('30', 2) if not ctx.thorough else ('300', 16)
     ctx.children(b, shards, run='TestC08', env={'VERIF_C08_HIST': nh}, timeout=1200)
